@@ -100,6 +100,19 @@ impl Channel {
         })
     }
 
+    /// The message counted by the preceding `send` was not accepted by the
+    /// channel (the receiver is gone), stop tracking it.
+    pub(crate) fn send_failed(&self) {
+        super::execution(|execution| {
+            let state = self.state.get_mut(&mut execution.objects);
+            state.msg_cnt = state
+                .msg_cnt
+                .checked_sub(1)
+                .expect("expected a message to have been sent");
+            state.receiver_synchronize.pop_back();
+        })
+    }
+
     pub(crate) fn recv(&self, location: Location) {
         self.state
             .branch_disable(Action::MsgRecv, self.is_empty(), location);
